@@ -184,15 +184,18 @@ func ids(v *tm.Value) []int16 {
 }
 
 // orderOK checks that the fields of got that come from the source appear in source order.
-func orderOK(src, got *tm.Value) string {
-	if src == nil || got == nil || src.K != got.K {
+func orderOK(src, got *tm.Value, ty *tm.Type, u *tm.Universe) string {
+	if src == nil || got == nil || src.K != got.K || ty == nil {
 		return ""
 	}
 	switch got.K {
 	case tm.STRUCT:
+		sd := u.Struct(ty.Ref)
 		pos := map[int16]int{}
 		for i, f := range src.Fields {
-			pos[f.ID] = i
+			if sd != nil && sd.Field(f.ID) != nil { // fields the source struct does not declare are not carried over
+				pos[f.ID] = i
+			}
 		}
 		last := -1
 		for _, f := range got.Fields {
@@ -204,18 +207,18 @@ func orderOK(src, got *tm.Value) string {
 				return fmt.Sprintf("source-derived fields out of source order: %v (source %v)", ids(got), ids(src))
 			}
 			last = p
-			if d := orderOK(src.Field(f.ID), f.V); d != "" {
+			if d := orderOK(src.Field(f.ID), f.V, sd.Field(f.ID).T, u); d != "" {
 				return d
 			}
 		}
 	case tm.LIST, tm.SET, tm.MAP:
 		for i := range got.Elems {
 			if i < len(src.Elems) {
-				if d := orderOK(src.Elems[i], got.Elems[i]); d != "" {
+				if d := orderOK(src.Elems[i], got.Elems[i], ty.Elem, u); d != "" {
 					return d
 				}
 				if got.K == tm.MAP {
-					if d := orderOK(src.Keys[i], got.Keys[i]); d != "" {
+					if d := orderOK(src.Keys[i], got.Keys[i], ty.Key, u); d != "" {
 						return d
 					}
 				}
@@ -266,7 +269,7 @@ func check(c *pbt.Ctx, cs Case) {
 	if d := cmp(got, want, "$"); d != "" {
 		c.Failf("wrong-projection", "MarshalTo output is not the projection: %s\n got  %s\n want %s", d, got.Short(), want.Short())
 	}
-	if d := orderOK(cs.V, got); d != "" {
+	if d := orderOK(cs.V, got, cs.Src, cs.U); d != "" {
 		c.Failf("wrong-order", "%s", d)
 	}
 	if tm.Depth(cs.V) >= 2 {
